@@ -1619,6 +1619,8 @@ class Unit(object):
         self.chunks = []
         self.rule_log = []          # (rule, before, after, file, fn)
         self.skipped_blocks = []
+        self.guard_hazards = []
+        self.guard_seen = set()
         self.lost_ghost_updates = []
         self.fns = {}               # fn_id -> dict(file, path, line, props, trusted, ...)
         self.clauses = []           # dict(fn, section, label, props, text)
@@ -2371,6 +2373,61 @@ def rule_R21_iter_quant(blk, recv_iter, elem_ty, spec_expr, unit, name, rel):
     return blk[:mm.start()] + new + pad + blk[cl + 1:]
 
 
+def guard_hazards(unit, rel, path, src, mask, it):
+    """GUARD (ownership condition, checked on the text, once per source function that a block is cut from): a `match` / `if let` /
+    `while let` whose scrutinee creates a RefCell guard (`.borrow()` / `.borrow_mut()` temporary) keeps that guard alive for the
+    whole body (Rust: scrutinee temporaries live to the end of the statement); if the body contains `.await`, the cell is still
+    borrowed while other calls of the same dispatcher run - the next `borrow_mut()` of it panics.  The cells are erased from the
+    verified text (R3 / block renamings), so this is the one property of them that is checked apart."""
+    key = (rel, ' :: '.join(path))
+    if key in unit.guard_seen:
+        return
+    unit.guard_seen.add(key)
+    body = src[it.body_start:it.end]
+    bm = mask[it.body_start:it.end]
+    for mm in re.finditer(r'\b(match|if\s+let|while\s+let)\b', body):
+        if not bm[mm.start()]:
+            continue
+        # scrutinee: up to the `{` that opens the body (for if/while let: after the `=`)
+        depth = 0
+        ob = None
+        for q in range(mm.end(), len(body)):
+            if not bm[q]:
+                continue
+            c = body[q]
+            if c in '([':
+                depth += 1
+            elif c in ')]':
+                depth -= 1
+            elif c == '{' and depth == 0:
+                ob = q
+                break
+            elif c == ';' and depth == 0:
+                break
+        if ob is None:
+            continue
+        scrut = ''.join(ch if bm[mm.end() + k] else ' ' for k, ch in enumerate(body[mm.end():ob]))
+        if mm.group(1) != 'match':
+            eq = scrut.find('=')
+            if eq < 0:
+                continue
+            scrut = scrut[eq + 1:]
+        if not re.search(r'\.\s*borrow(_mut)?\s*\(\s*\)', scrut):
+            continue
+        cb = match_brace(body, bm, ob)
+        if mm.group(1) == 'match':
+            inner = body[ob:cb]
+            im = bm[ob:cb]
+        else:
+            # an `if let` keeps the temporaries through its else branches as well (edition 2021)
+            end = _if_chain_end(body, bm, mm.start()) if mm.group(1).startswith('if') else cb + 1
+            inner = body[ob:end]
+            im = bm[ob:end]
+        if any(im[m2.start()] for m2 in re.finditer(r'\.\s*await\b', inner)):
+            unit.guard_hazards.append({'file': rel, 'fn': ' :: '.join(path), 'line': line_of(src, it.body_start + mm.start()),
+                                       'scrutinee': norm_ws(scrut.strip())[:160]})
+
+
 def emit_block(unit, loc, dlines, tmpl_where):
     """R9: a statement range of a (possibly async) fn, located by a start and an end anchor, is wrapped
     verbatim into a synthetic fn whose name and parameter list come from the contract file:
@@ -2403,6 +2460,7 @@ def emit_block(unit, loc, dlines, tmpl_where):
     it = find_item(src, mask, path)
     if it.kind != 'fn' or it.body_start is None:
         raise AnchorLost('%s is not a fn with a body' % mm.group(1))
+    guard_hazards(unit, rel, path, src, mask, it)
     body = src[it.body_start:it.end]
     bmask = mask[it.body_start:it.end]
     name = None
